@@ -187,6 +187,8 @@ def m_outcome(out, base, tag: str, exec_slack=None) -> list[Violation]:
     vs = []
     if not out["quiescent"] or not base["quiescent"]:
         return vs
+    if out["case"]["spec"].get("order_dependent"):
+        return vs      # the workflow's outcome is a function of the delivery order by design (milestone window)
     if out["final"]["wf"] != base["final"]["wf"]:
         vs.append(Violation(
             what=f"workflow ends {out['final']['wf']} but the in-order exactly-once run ends {base['final']['wf']} ({tag})",
